@@ -9,10 +9,11 @@
      ensure_wal_capacity                       next power of two, shift_data_for_wal_growth,
                                                adjust_offsets_after_wal_growth
      commit / commit_from_records              apply_records, rebuild_indexes iff the delta is not empty
-     commit_skip_indexes(_inner)               apply_records WITHOUT the Tantivy engine, the returned
-                                               delta (and the embeddings it carries) is DROPPED, every
-                                               index manifest is cleared, the in-memory engine / vector
-                                               index stay as they were
+     commit_skip_indexes(_inner)               apply_records WITHOUT the Tantivy engine; the embeddings of
+                                               the returned delta are folded into the IN-MEMORY vector
+                                               index (fix ed861c9; before it the delta was dropped:
+                                               commit_skip_unfixed), every index manifest is cleared, the
+                                               in-memory engine stays as it was
      finalize_indexes                          rebuild_indexes(&[], &[]) from the committed frame table
      rebuild_indexes                           time index from the table, three Tantivy branches,
                                                build_vec_artifact (old in-memory entries + new docs)
@@ -36,9 +37,12 @@ Record doc := mkDoc {
   d_text : bool; d_ctext : list bool; (* index text of the document frame / of the i-th chunk frame holds the probe word *)
   d_emb : option emb; d_instant : bool }.
 
+(* put_internal: `embedding.filter(|vector| !vector.is_empty())` -- an empty vector is no embedding *)
+Definition eff_emb (o : option emb) : option emb := match o with Some [] => None | _ => o end.
+
 (* the frames a document becomes: the Document frame, then its chunk frames (same timestamp, no embedding) *)
 Definition doc_infos (d : doc) : list info :=
-  mkInfo (d_ts d) (d_text d) (d_emb d)
+  mkInfo (d_ts d) (d_text d) (eff_emb (d_emb d))
     :: map (fun j => mkInfo (d_ts d) (nth j (d_ctext d) false) None) (seq 0 (N.to_nat (d_nchunks d))).
 
 (* ---------------------------------------------------------------- ensure_wal_capacity *)
@@ -143,7 +147,12 @@ Definition rebuild (x : idx) (frames : list frame) (il : list info) (newd : docs
   | None => mkIdx (Some (tix_full frames il)) lex2 lex2 false (venabled x) None None
   end.
 
-(* commit_from_records / recover_wal *)
+(* enable_vec: vec_enabled = true, placeholder manifest if there is none *)
+Definition enable (x : idx) : idx :=
+  mkIdx (tix x) (lex x) (lex_disk x) (tdirty x) true (match vtoc x with None => Some None | m => m end) (vidx x).
+Definition nonempty_docs (d : docs) : bool := match d with [] => false | _ => true end.
+
+(* commit_from_records; recover_wal replays through the same function *)
 Definition commit_full (s : bst) (extra : N) : bst :=
   let b := base s in
   let recs := pending b in
@@ -153,7 +162,8 @@ Definition commit_full (s : bst) (extra : N) : bst :=
   let n0 := len (committed b) in
   let ins := inserted_ids n0 (length ni) in
   let newd := vec_from n0 ni in                                        (* delta.inserted_embeddings *)
-  let x := ix s in
+  (* `if !delta.inserted_embeddings.is_empty() && !self.vec_enabled { self.enable_vec()?; }` *)
+  let x := if nonempty_docs newd && negb (venabled (ix s)) then enable (ix s) else ix s in
   (* apply_records with the engine present: add_frame for every insert (delete for every
      tombstone), each setting tantivy_dirty = true *)
   let x1 := mkIdx (tix x) (lex x ++ filter (fun i => i_text (info_of il' i)) ins) (lex_disk x)
@@ -170,9 +180,28 @@ Definition commit_skip (s : bst) : bst :=
   | _, _ =>
       let ni := new_infos (pending b) (pinf s) in
       let x := ix s in
+      let newd := vec_from (len (committed b)) ni in                    (* delta.inserted_embeddings *)
       (* the engine is taken away during apply_records and restored unchanged; tantivy_dirty = false;
-         `let _delta = result?;` -- the inserted embeddings are dropped here;
-         time index, lex, vec (data pointers), clip, segment catalogs, tracks: cleared in the TOC *)
+         `if !delta.inserted_embeddings.is_empty() && self.vec_enabled { self.ensure_vec_index()?;
+            if let Some((_, index)) = self.build_vec_artifact(&delta.inserted_embeddings)? { self.vec_index = Some(index); } }`
+         ensure_vec_index loads the index from the manifest when none is in memory *)
+      let cur := match vidx x with Some d => Some d | None => index_of (vtoc x) end in
+      let vi := if nonempty_docs newd && venabled x
+                then match build_vec_artifact (venabled x) (view b) cur newd with Some d => Some d | None => cur end
+                else vidx x in
+      (* time index, lex, vec (data pointers), clip, segment catalogs, tracks: cleared in the TOC *)
+      let x1 := mkIdx None (lex x) [] false (venabled x) (zero_manifest (vtoc x)) vi in
+      mkB (do_commit b 0) (finf s ++ ni) [] (mkBat (bopts (bat s)) (wal_size (bat s)) (wal_skip (bat s)) 0) x1
+  end.
+
+(* the same before fix ed861c9: `let _delta = result?;` -- the inserted embeddings were dropped *)
+Definition commit_skip_unfixed (s : bst) : bst :=
+  let b := base s in
+  match pending b, dirty b with
+  | [], false => s
+  | _, _ =>
+      let ni := new_infos (pending b) (pinf s) in
+      let x := ix s in
       let x1 := mkIdx None (lex x) [] false (venabled x) (zero_manifest (vtoc x)) (vidx x) in
       mkB (do_commit b 0) (finf s ++ ni) [] (mkBat (bopts (bat s)) (wal_size (bat s)) (wal_skip (bat s)) 0) x1
   end.
@@ -260,9 +289,16 @@ Definition bstep (s : bst) (op : bop) : bst * sout :=
       let b := base s in
       (* Drop: commit when dirty *)
       let s1 := if dirty b then commit_full s extra else set_base s (bump b extra) in
-      (* open: batch options gone, persisted indexes reloaded *)
+      (* open: batch options gone, persisted indexes reloaded.  init_tantivy: with no Tantivy segment in
+         the TOC (never written, or cleared by commit_skip_indexes -- in the model: exactly when there is
+         no time index manifest) the expected document count is unknown and the engine is REBUILT from
+         the frame table; recover_wal / commit_from_records then flushes it (tantivy_dirty) *)
       let x := ix s1 in
-      let x1 := mkIdx (tix x) (lex_disk x) (lex_disk x) false (is_some (vtoc x)) (vtoc x) (index_of (vtoc x)) in
+      let lx := match tix x with
+                | None => lex_full (committed (base s1)) (finf s1)
+                | Some _ => lex_disk x
+                end in
+      let x1 := mkIdx (tix x) lx lx false (is_some (vtoc x)) (vtoc x) (index_of (vtoc x)) in
       let s2 := mkB (base s1) (finf s1) (pinf s1) (mkBat None (wal_size (bat s1)) false 0) x1 in
       (* recover_wal *)
       let s3 := match pending (base s2) with [] => s2 | _ => commit_full s2 0 end in
@@ -291,9 +327,16 @@ Definition bview (s : bst) : list frame * list Z * list N * list N * docs :=
 Definition docs_of_ops (ops : list bop) : list doc :=
   flat_map (fun op => match op with BPut d _ _ => [d] | _ => [] end) ops.
 
-(* ---------------------------------------------------------------- the known-finding class *)
+(* ---------------------------------------------------------------- the boundary *)
 Definition is_skip (op : bop) : bool := match op with BSkip => true | _ => false end.
-Definition embedded_put (op : bop) : bool :=
-  match op with BPut d _ _ => incoming_dimension (d_emb d) None | _ => false end.
-(* F-C40-1: the history uses commit_skip_indexes AND has a put with an embedding *)
-Definition known_class (ops : list bop) : bool := existsb is_skip ops && existsb embedded_put ops.
+(* Between commit_skip_indexes and the next finalize_indexes the indexes of the batch exist in memory
+   only (the log records are checkpointed, the manifests cleared).  scan w ops follows that window:
+   None = the memory was closed and reopened inside it; Some w = fine, w = "inside the window now". *)
+Fixpoint scan (w : bool) (ops : list bop) : option bool :=
+  match ops with
+  | [] => Some w
+  | BSkip :: r => scan true r
+  | BFinalize _ _ :: r => scan false r
+  | BReopen _ :: r => if w then None else scan false r
+  | _ :: r => scan w r
+  end.
